@@ -118,26 +118,40 @@ def removable (l : List Node) : Bool :=
     let a := lastOr q r
     PolygonKernels.filterRemovable p.steiner a.x a.y p.x p.y q.x q.y
 
+/-- Bookkeeping for one node the caller wants to find again after `filter_points` (the bridge node in `eliminate_hole`):
+`pos` = its position while it is in the ring; once it was removed, `prv`/`nxt` = positions of the nodes its (now stale)
+`prev`/`next` pointers refer to, as long as those are still in the ring. -/
+structure Mark where
+  pos : Option Nat := none
+  prv : Option Nat := none
+  nxt : Option Nat := none
+deriving Repr, DecidableEq
+
 /-- position of a marked node after `p = p.next` in a ring of `n` nodes -/
-def markRotl (n : Nat) (m : Option Nat) : Option Nat := m.map (fun j => if j = 0 then n - 1 else j - 1)
+def posRotl (n : Nat) (m : Option Nat) : Option Nat := m.map (fun j => if j = 0 then n - 1 else j - 1)
 /-- position of a marked node after the cursor node was removed and the cursor moved to its predecessor -/
-def markRemove (n : Nat) (m : Option Nat) : Option Nat :=
+def posRemove (n : Nat) (m : Option Nat) : Option Nat :=
   m.bind (fun j => if j = 0 then none else if j = n - 1 then some 0 else some j)
 
+def Mark.rotl (n : Nat) (m : Mark) : Mark := ⟨posRotl n m.pos, posRotl n m.prv, posRotl n m.nxt⟩
+def Mark.remove (n : Nat) (m : Mark) : Mark :=
+  if m.pos = some 0 then ⟨none, some 0, some (1 % (n - 1))⟩
+  else ⟨posRemove n m.pos, posRemove n m.prv, posRemove n m.nxt⟩
+
 /-- `filter_points(start, end)`.  `l`: ring with the cursor at `p`; `r`: number of `p = p.next` steps after which `p is end`
-(`len` for `end = start`, `1` for `end = start.next`); `m`: position of a node the caller wants to find again.
+(`len` for `end = start`, `1` for `end = start.next`); `m`: bookkeeping for a node the caller wants to find again.
 Returns the ring with the cursor at the returned node `end`. -/
-def filterPointsM (l : List Node) (r : Nat) (m : Option Nat) : List Node × Option Nat :=
+def filterPointsM (l : List Node) (r : Nat) (m : Mark) : List Node × Mark :=
   match l with
   | [] => ([], m)
   | [p] => ([p], m)
   | p :: q :: t =>
     if removable (p :: q :: t) then
       let l' := rotr (q :: t)
-      let m' := markRemove (t.length + 2) m
+      let m' := m.remove (t.length + 2)
       if t.isEmpty then (l', m') else filterPointsM l' l'.length m'
     else
-      let m' := markRotl (t.length + 2) m
+      let m' := m.rotl (t.length + 2)
       if r ≤ 1 then (rotl (p :: q :: t), m') else filterPointsM (rotl (p :: q :: t)) (r - 1) m'
 termination_by (l.length, r)
 decreasing_by
@@ -146,7 +160,7 @@ decreasing_by
   · simp only [rotl_length, List.length_cons]
     exact Prod.Lex.right _ (by omega)
 
-def filterPoints (l : List Node) (r : Nat) : List Node := (filterPointsM l r none).1
+def filterPoints (l : List Node) (r : Nat) : List Node := (filterPointsM l r {}).1
 
 /-! ## cure_local_intersections -/
 
@@ -206,11 +220,12 @@ def diagonalOk (la : List Node) (j : Nat) : Bool :=
 
 /-- `split_polygon(a, b)` for `a` = cursor and `b` = node `j` steps ahead: (ring of `a`, ring of the returned copy `b2`) -/
 def splitAt (la : List Node) (j : Nat) : List Node × List Node :=
-  let a := nth la 0
-  let b := nth la j
-  let a2 : Node := { a with steiner := false }
-  let b2 : Node := { b with steiner := false }
-  (a :: la.drop j, b2 :: a2 :: (la.take j).drop 1)
+  match la.take j, la.drop j with
+  | a :: xs, b :: ys =>
+    let a2 : Node := { a with steiner := false }
+    let b2 : Node := { b with steiner := false }
+    (a :: b :: ys, b2 :: a2 :: xs)
+  | _, _ => (la, [])
 
 /-- the double loop of `split_ear_cut`: first (rotation `s`, offset `j`) with a valid diagonal -/
 def findSplit (l : List Node) : Option (List Node × List Node) :=
@@ -265,20 +280,27 @@ def earcutLinked : Nat → List Node → Nat → Nat → Out
 
 /-! ## linked_list, eliminate_holes -/
 
-def mkNodes (pts : List Pt) (ptOff : Nat) : List Node :=
-  (List.range pts.length).zipWith (fun k p => { i := 0, pt := ptOff + k, x := p.x, y := p.y, steiner := false }) pts
+/-- nodes of a point list before `i` is assigned; `pt` = position in exterior ++ holes -/
+def mkNodes : List Pt → Nat → List Node
+  | [], _ => []
+  | p :: ps, ptOff => { i := 0, pt := ptOff, x := p.x, y := p.y, steiner := false } :: mkNodes ps (ptOff + 1)
+
+/-- `insert_node(start, point, last); start += 1` along the list -/
+def setIndex : List Node → Nat → List Node
+  | [], _ => []
+  | n :: ns, start => { n with i := start } :: setIndex ns (start + 1)
+
+/-- `if last and last == last.next: remove_node(last); last = last.next` -/
+def dropDuplicateLast : List Node → List Node
+  | last :: nxt :: t => if nodeEq last nxt then nxt :: t else last :: nxt :: t
+  | ring => ring
 
 /-- `linked_list(points, start, ccw)`: ring with the cursor at the returned node `last` -/
 def linkedList (pts : List Pt) (start ptOff : Nat) (ccw : Bool) : List Node :=
   let ns := mkNodes pts ptOff
-  let ordered :=
-    if PolygonKernels.sameWinding ccw (signedArea ns) then
-      (List.range ns.length).zipWith (fun k nd => { nd with i := start + k }) ns
-    else
-      ((List.range ns.length).zipWith (fun k nd => { nd with i := start + k + 1 }) ns).reverse
-  match rotr ordered with
-  | last :: nxt :: t => if nodeEq last nxt then nxt :: t else last :: nxt :: t
-  | ring => ring
+  dropDuplicateLast (rotr (
+    if PolygonKernels.sameWinding ccw (signedArea ns) then setIndex ns start
+    else (setIndex ns (start + 1)).reverse))
 
 /-- index (steps from the cursor) of `get_leftmost(start)` -/
 def leftmostIdx (l : List Node) : Nat :=
@@ -357,8 +379,11 @@ def mergeHole (outerAtBridge : List Node) (holeRing : List Node) : List Node × 
     (b2 :: a2 :: as ++ a :: b :: bs, as.length + 2)
   | _, _ => (outerAtBridge, 0)
 
-/-- `eliminate_hole(hole, outer_node)`; the Boolean reports the one situation that is not modelled: the first
-`filter_points` call removed the bridge node itself, so the second call starts on a detached node. -/
+/-- `eliminate_hole(hole, outer_node)`.  The first `filter_points(bridge_reverse, bridge_reverse.next)` may remove the bridge
+node itself; the second call `filter_points(bridge, bridge.next)` then starts on a detached node whose stale pointers
+still name its former neighbours: it "removes" that node again (no effect when the two neighbours are still adjacent ring
+nodes), moves to `bridge.prev` and filters the whole ring from there.  The Boolean reports the remaining situation that is
+not modelled (a former neighbour was removed as well, the code then works on an inconsistent list). -/
 def eliminateHole (holeRing : List Node) (outer : List Node) : List Node × Bool :=
   match holeRing with
   | [] => (outer, false)
@@ -367,10 +392,15 @@ def eliminateHole (holeRing : List Node) (outer : List Node) : List Node × Bool
     | none => (outer, false)
     | some idx =>
       let mg := mergeHole (rotBy idx outer) holeRing
-      let f1 := filterPointsM mg.1 1 (some mg.2)
-      match f1.2 with
-      | some j => (filterPoints (rotBy j f1.1) 1, false)
-      | none => (f1.1, true)
+      let f1 := filterPointsM mg.1 1 { pos := some mg.2 }
+      let n := f1.1.length
+      match f1.2.pos, f1.2.prv, f1.2.nxt with
+      | some j, _, _ => (filterPoints (rotBy j f1.1) 1, false)
+      | none, some i, some k =>
+        if k = (i + 1) % n then
+          (if n ≤ 1 then f1.1 else filterPoints (rotBy i f1.1) n, false)
+        else (f1.1, true)
+      | _, _, _ => (f1.1, true)
 
 /-- the hole rings of `eliminate_holes`, each with the cursor at its leftmost node, in queue order before sorting -/
 def holeRings : List (List Pt) → Nat → Nat → List (List Node)
@@ -592,5 +622,59 @@ def convexHull (pts : List Pt) : Option (List Pt) :=
     let lower := lowerHull vs
     let t := lower.length + 1
     some ((vs.reverse.drop 1).foldl (hullPush t) lower).reverse
+
+/-! ## vocabulary of the C19 statements (not part of the code model) -/
+
+/-- cut the ear at the cursor after advancing the cursor `k` steps, for every `k` of the list: any sequence of ear removals -/
+def cutEars : List Node → List Nat → List Tri × List Node
+  | l, [] => ([], l)
+  | l, k :: ks =>
+    match rotBy (k % (l.length + 1)) l with
+    | b :: c :: r =>
+      let rest := cutEars (c :: r) ks
+      ((lastOr c r, b, c) :: rest.1, rest.2)
+    | short => ([], short)
+
+def sumTri (ts : List Tri) : Rat := (ts.map triArea).sum
+def sumRings (rs : List (List Node)) : Rat := (rs.map signedArea).sum
+/-- what `cure_local_intersections` adds to the area balance for one quadruple a, p, q, b: the triangle p q b -/
+def cureDefect (c : Cure) : Rat := area c.2.1 c.2.2.1 c.2.2.2
+def sumCure (cs : List Cure) : Rat := (cs.map cureDefect).sum
+
+/-- everything `earcut_linked` accounts for: emitted triangles, rings it stopped on, and the cured defects -/
+def Out.area (o : Out) : Rat := sumTri o.tris + sumRings o.left + sumCure o.cured
+
+/-- the run triangulated everything: no ring of three or more nodes was abandoned, nothing was "cured", fuel sufficed -/
+def Out.complete (o : Out) : Prop := (∀ r ∈ o.left, r.length < 3) ∧ o.cured = [] ∧ o.fuelOut = false
+
+/-- same source point and same coordinates (copies made by `split_polygon` differ in `steiner` only) -/
+def Node.same (a b : Node) : Prop := a.pt = b.pt ∧ a.x = b.x ∧ a.y = b.y ∧ a.i = b.i
+
+/-- left of / on / right of the directed line `cs -> ce`: the determinant tested by `is_inside` -/
+def sideOf (cs ce p : Pt) : Rat := (ce.x - cs.x) * (p.y - cs.y) - (ce.y - cs.y) * (p.x - cs.x)
+
+/-- the point `a + t (b - a)` -/
+def lerp (a b : Pt) (t : Rat) : Pt := ⟨a.x + t * (b.x - a.x), a.y + t * (b.y - a.y)⟩
+
+/-- the directed edges `clip_start -> clip_end` visited by the outer loop of `clip_polygon` / `clip_line` -/
+def clipEdges (prev : Pt) : List Pt → List (Pt × Pt)
+  | [] => []
+  | ce :: rest => (prev, ce) :: clipEdges ce rest
+
+/-- all directed edges of the stored clipping polygon (closed) -/
+def polygonEdges : List Pt → List (Pt × Pt)
+  | [] => []
+  | c :: cs => clipEdges (lastPt c cs) (c :: cs)
+
+def Win.contains (w : Win) (p : Pt) : Prop := w.xmin ≤ p.x ∧ p.x ≤ w.xmax ∧ w.ymin ≤ p.y ∧ p.y ≤ w.ymax
+
+/-- `hull[k-2], hull[k-1], v` make a strict left turn -/
+def leftTurn (o a b : Pt) : Prop := 0 < PolygonKernels.hullCross o.x o.y a.x a.y b.x b.y
+
+/-- on the hull stack (top first): every three consecutive entries whose middle entry sits at height `floor - 1` or above
+(counted from the bottom of the stack) make a strict left turn -/
+def turnsOkFrom (floor : Nat) : List Pt → Prop
+  | b :: a :: o :: t => (floor ≤ t.length + 2 → leftTurn o a b) ∧ turnsOkFrom floor (a :: o :: t)
+  | _ => True
 
 end EzdxfVerif.Polygon
